@@ -1597,7 +1597,7 @@ class BaseSQL(
         if isinstance(p_list[-1], list):
             p_list[-1] = " ".join(p_list[-1])
             default = " ".join(p_list[1:])
-        if default.isnumeric():
+        if isinstance(default, str) and default.isnumeric():
             default = int(default)
 
         if isinstance(p[1], dict):
